@@ -6,7 +6,7 @@ META = {
     "explanation": "Input-universal functional equality with a reference multimap is NOT decidable by static analysis and is not claimed. Decided structural clauses of its anchors: parameter validation "
                    "(power-of-two, non-zero) before any allocation and pow2+clamp of the initial size; every traversal/count/destroy function classifies a node as stored by the same predicate "
                    "on ->next; bucket selection and bucket reverse hashes (hash & (size-1), bit_reverse(index)); per-allocator alloc/free symmetry and complete mm tables; exactness of the bit-reversal table; "
-                   "identical-hash chain placement of bucket nodes in _cds_lfht_add.",
+                   "identical-hash chain placement of bucket nodes in _cds_lfht_add; atomic-step shapes of replace / unique add / del (shared with C06, C07), which are visible sequentially too.",
     "not_decided": "equality with a reference multimap for all operation sequences and inputs (input-universal: not applicable to this family)",
     "level_text": "Only necessary structural conditions are decided; the behavioural statement itself is declared not applicable to static analysis.",
 }
@@ -43,5 +43,8 @@ RULES = [
     ("C08.chain", rule_chain),
     ("C08.tables", lambda c, r: lfht.rule_mm(c, r, "C08.tables")),
     ("C08.rev", lambda c, r: lfht.rule_rev(c, r, "C08.rev")),
+    ("C08.replace", lambda c, r: lfht.rule_replace(c, r, "C08.replace")),
+    ("C08.unique", lambda c, r: lfht.rule_unique(c, r, "C08.unique")),
+    ("C08.del", lambda c, r: lfht.rule_del(c, r, "C08.del")),
 ]
 FLOORS = {}
